@@ -131,6 +131,46 @@ def getTip (all : List (Chunk H)) : Res (Option (Block H)) :=
     | some (.blk b) => .ok (some b)
     | some .readErr => .err .read
     | some .garbage => .err .decode
+
+/-! ## chunks whose files may fail to open
+
+`chunk::read_blocks(dir, name)` itself fails when the primary index cannot be opened (empty file).
+`ChunkReaders` is consumed through `.map_while(Result::ok)`: the first chunk that fails to open
+ends the iteration silently; the comparator of `read_blocks_from_point` turns the failure into
+`ChunkReadError`. A chunk is now `none` (does not open) or `some items`. -/
+
+abbrev FChunk (H : Type) := Option (Chunk H)
+
+/-- `ChunkReaders(..).map_while(Result::ok).flatten()` over a name stack (popped from the end) -/
+def readersF (names : List (FChunk H)) : List (Item H) :=
+  ((names.reverse.takeWhile Option.isSome).filterMap id).flatten
+
+def stackF (all : List (FChunk H)) : List (FChunk H) := all.dropLast.reverse
+
+def readBlocksF (all : List (FChunk H)) : List (Item H) := readersF (stackF all)
+
+def chunkCmpF (slot : Nat) : FChunk H → Res Ordering
+  | none => .err .read
+  | some c => chunkCmp slot c
+
+def readBlocksFromPointF (all : List (FChunk H)) (slot : Nat) (hash : Option H) : Res (List (Item H)) :=
+  let names := stackF all
+  match chunkBinarySearch names (chunkCmpF slot) with
+  | .err e => .err e
+  | .panic => .panic
+  | .ok none => .err .cannotFind
+  | .ok (some idx) => iterateTillPoint (readersF (names.take (idx + 1))) slot hash
+
+def getTipF (all : List (FChunk H)) : Res (Option (Block H)) :=
+  match stackF all with
+  | [] => .ok none
+  | none :: _ => .ok none
+  | some c :: _ =>
+    match c.getLast? with
+    | none => .ok none
+    | some (.blk b) => .ok (some b)
+    | some .readErr => .err .read
+    | some .garbage => .err .decode
 end
 
 end PallasVerif.ImmutableDb
